@@ -64,7 +64,9 @@ Proof.
   unfold shut_close. destruct (st_closers s) as [|n].
   - intros H; inversion H; subst. now rewrite app_nil_r.
   - destruct (st_chan_closed s) eqn:EC; intros H I; inversion H; subst.
-    + rewrite app_nil_r. eapply InvC_same; [..|exact I]; try reflexivity. simpl. now rewrite EC.
+    + destruct I as [H1 H2 H3 H4 H5 H6 H7 H8].
+      constructor; simpl; rewrite ?states_of_snoc_other, ?count_snoc_other by reflexivity; auto.
+      now rewrite H7, EC.
     + destruct I as [H1 H2 H3 H4 H5 H6 H7 H8].
       constructor; simpl; rewrite ?states_of_snoc_other, ?count_snoc_other by reflexivity; auto.
       rewrite count_app, H7, EC. reflexivity.
@@ -323,7 +325,7 @@ Qed.
 
 Lemma shut_close_shape s s' a :
   shut_close s = (s', a) ->
-  (a = [] \/ a = [ACloseChan]) /\ st_live s' = st_live s /\ st_gen s' = st_gen s /\ st_pc s' = st_pc s
+  (a = [] \/ a = [ACloseChan] \/ a = [ARecovered]) /\ st_live s' = st_live s /\ st_gen s' = st_gen s /\ st_pc s' = st_pc s
   /\ st_async s' = st_async s.
 Proof.
   unfold shut_close. destruct (st_closers s); [|destruct (st_chan_closed s)];
@@ -340,7 +342,7 @@ Definition is_run (l : label) : bool := match l with LRun _ => true | _ => false
 
 Lemma env_step_shape o s l s' a :
   step o s l = (s', a) -> is_run l = false ->
-  (a = [] \/ a = [ACloseChan]) /\ st_live s' = st_live s /\ st_gen s' = st_gen s /\ st_pc s' = st_pc s.
+  (a = [] \/ a = [ACloseChan] \/ a = [ARecovered]) /\ st_live s' = st_live s /\ st_gen s' = st_gen s /\ st_pc s' = st_pc s.
 Proof.
   intros ST NR. destruct l; simpl in ST.
   - destruct (Nat.eqb _ 0); inversion ST; subst; simpl; auto.
@@ -358,7 +360,7 @@ Qed.
 Lemma InvL_step o s log l s' a : InvC s log -> InvL o s log -> step o s l = (s', a) -> InvL o s' (log ++ a).
 Proof.
   intros C I ST.
-  destruct l; try (destruct (env_step_shape o s _ s' a ST eq_refl) as [[->| ->] [E1 _]];
+  destruct l; try (destruct (env_step_shape o s _ s' a ST eq_refl) as [[->|[->| ->]] [E1 _]];
                     eapply (InvL_neutral o s); eauto; fail).
   simpl in ST. eapply InvL_run; eauto.
 Qed.
@@ -538,7 +540,7 @@ Qed.
 Lemma InvN_step o s log l s' a : InvC s log -> InvN o s log -> step o s l = (s', a) -> InvN o s' (log ++ a).
 Proof.
   intros C I ST.
-  destruct l; try (destruct (env_step_shape o s _ s' a ST eq_refl) as [[->| ->] [E1 [E2 _]]];
+  destruct l; try (destruct (env_step_shape o s _ s' a ST eq_refl) as [[->|[->| ->]] [E1 [E2 _]]];
                     eapply (InvN_neutral o s); eauto; apply neutral_counts; reflexivity).
   simpl in ST. eapply InvN_run; eauto.
 Qed.
